@@ -42,6 +42,9 @@ def slices(tier):
         # enclosing component tensor binds and an outer subscript re-uses the inner bound index (capture hazard of remove_ct)
         Slice("ct-in-cond", [U, F], {"index", "mul", "as_tensor", "abs", "lt", "cond"}, 11, idx=(10, 11, 12),
               levels=[{"lt"}, {"index"}, {"index"}, {"mul"}, {"as_tensor"}, {"abs"}, {"cond"}, {"index"}, {"as_tensor"}, {"index"}, {"remove_ct"}], mikinds=("name",), chain="semi", **kw),
+        # the index of an outer component tensor bound again by an inner one that survives (shadowing), subscripted with fixed indices
+        Slice("shadow", [U], {"index", "mul", "as_tensor", "abs"}, 9, idx=(10, 11),
+              levels=[{"index"}, {"index"}, {"mul"}, {"as_tensor"}, {"abs"}, {"index"}, {"as_tensor"}, {"index"}, {"remove_ct"}], mikinds=("name", "fixed"), chain="semi", **kw),
         # a sum over an index whose summand contains a closed inner sum over the SAME index object, the outer index used afterwards
         Slice("reuse-sum", [U, V], {"index", "mul", "lt", "cond"}, 7, idx=(10,), lits=[LIT["zero"]],
               levels=[{"index"}, {"index"}, {"mul"}, {"lt"}, {"cond"}, {"mul"}, PASSES], mikinds=("name",), chain="semi", **kw),
